@@ -318,6 +318,56 @@ theorem alone_neutral {α} [NumOps α] (st st1 st2 : IdState.St) (d : Dag α) (k
   unfold IdState.ctxAt
   rw [hm, hrun]
 
+/-- **… nor does any number of them in a row** — in particular the evaluations the library performs
+by itself while it audits a formula that contains a logit (the choice and every availability are
+evaluated alone, `prepare_ids=True`, by `Database.check_availability_of_chosen_alt`): in a state where
+each of these parts holds one manager on all its nodes they leave every reference where it was, which is
+why the model of an evaluation need not follow them. -/
+theorem alone_many_neutral {α} [NumOps α] (d : Dag α) (cols : List String) (ks : List Nat) :
+    ∀ (st st' : IdState.St), IdState.Valid st →
+      (∀ k ∈ ks, (∀ j ∈ IdState.reachOf d k, st.mgr j = st.mgr k) ∧
+        ∀ h t, st.mgr k = some h → st.tables[h]? = some t →
+          IdState.knows t d (IdState.reachOf d k) = true) →
+      IdState.aloneSeq st d cols ks = .ok st' →
+      st'.mgr = st.mgr ∧ ∃ extra, st'.tables = st.tables ++ extra := by
+  induction ks with
+  | nil =>
+    intro st st' _ _ h
+    simp only [IdState.aloneSeq, Except.ok.injEq] at h
+    subst h
+    exact ⟨rfl, [], by simp⟩
+  | cons k ks ih =>
+    intro st st' hv hall h
+    simp only [IdState.aloneSeq] at h
+    cases ha : IdState.aloneAt st d k cols with
+    | error e => rw [ha] at h; cases h
+    | ok p =>
+      obtain ⟨st1, st2⟩ := p
+      rw [ha] at h
+      simp only at h
+      obtain ⟨hu, hkn⟩ := hall k List.mem_cons_self
+      obtain ⟨hm, t', htab⟩ := alone_restores st st1 st2 d k cols hv hu hkn ha
+      have hv2 : IdState.Valid st2 := by
+        intro j hh hj
+        rw [hm] at hj
+        have := hv j hh hj
+        rw [htab, List.length_append]
+        omega
+      have hall2 : ∀ k' ∈ ks, (∀ j ∈ IdState.reachOf d k', st2.mgr j = st2.mgr k') ∧
+          ∀ hh t, st2.mgr k' = some hh → st2.tables[hh]? = some t →
+            IdState.knows t d (IdState.reachOf d k') = true := by
+        intro k' hk'
+        obtain ⟨hu', hkn'⟩ := hall k' (List.mem_cons_of_mem _ hk')
+        rw [hm]
+        refine ⟨hu', ?_⟩
+        intro hh t hmk hget
+        have hlt : hh < st.tables.length := hv k' hh hmk
+        rw [htab, List.getElem?_append_left hlt] at hget
+        exact hkn' hh t hmk hget
+      obtain ⟨hm', extra, htab'⟩ := ih st2 st' hv2 hall2 h
+      refine ⟨by rw [hm', hm], [t'] ++ extra, ?_⟩
+      rw [htab', htab, List.append_assoc]
+
 /-- **A formula evaluated in a persistent context takes the engine path of `engine_correct`**: when
 all nodes of the sub-formula `k` refer to one id table that names the parameters and variables of
 the DAG, the evaluation in the current state is serialise → load → run with that table, hence the
@@ -370,6 +420,18 @@ example : ∃ st st1 st2, IdState.persist IdState.St.init seqDag [6] ["x", "y"] 
     (∀ j ∈ IdState.reachOf seqDag 5, st.mgr j = st.mgr 5) ∧ st.mgr 5 = some 0 := by
   refine ⟨_, _, _, rfl, rfl, ?_, by decide⟩
   decide
+
+/-- … and of `alone_many_neutral` (both products, one after the other) and `context_value` (after the
+numbering of the whole, every node of the whole refers to the table `a, z | x, y`) -/
+example : (match IdState.persist IdState.St.init seqDag [6] ["x", "y"] with
+    | .error _ => false
+    | .ok st =>
+      (match IdState.aloneSeq st seqDag ["x", "y"] [5, 4] with
+       | .ok st' => (List.range 7).all fun j => st'.mgr j == st.mgr j
+       | .error _ => false) &&
+      (IdState.reachOf seqDag 6).all fun j =>
+        (IdState.tableAt st j).map (fun t => (t.free, t.fixed, t.cols)) == some (["a", "z"], [], ["x", "y"])) = true := by
+  decide +kernel
 
 /-! ### non-vacuity: a shared sub-formula, evaluated on the three paths -/
 
